@@ -77,6 +77,10 @@ def shapes(T):
         ("one_char", "Bearer " + repl),
         ("basic_wrong", "Basic " + T[::-1]),
         ("two_words_wrong", "Bearer " + T[:-1] + " " + T[1:]),
+        # the token with letters of the scheme in front of it, the scheme twice, the token without any scheme
+        ("scheme_letters_before_token", "Bearer ear" + T),
+        ("scheme_twice_glued", "Bearer Bearer" + T),
+        ("bare_token", T),
         ("other_servers_token", "Bearer 0therTok"),
         # header values are latin-1: credentials with characters outside ASCII are credentials like any other
         ("non_ascii", "Bearer \u00fc"),
